@@ -126,6 +126,18 @@ def check(chk, repo, tier):
                            False, iss.detail, mod.rel, iss.lineno,
                            witness=PY_WITNESS.get(cons))
     chk.floor("python functions touching bookkeeping lists", n_fn, 3)
+    n_sw = 0
+    for modname in repo.package_modules():
+        if modname.endswith(".dictionary"):
+            continue
+        mod = repo.mod(modname)
+        for st in mod.tree.body:
+            if isinstance(st, (ast.FunctionDef, ast.ClassDef)):
+                n_sw += swallowed_failures(
+                    chk, f"python:{modname.split('.')[-1]}.{st.name}", st,
+                    mod.rel)
+    chk.unit("broad exception handlers examined", n_sw)
+    chk.floor("broad exception handlers examined", n_sw, 3)
 
     stray_stopiteration(chk, repo)
 
@@ -302,11 +314,78 @@ PY_WITNESS = {
 }
 
 
+# calls that cannot run a Vyxal function (they convert text / numbers; they
+# never iterate a lazy list): a handler that swallows their failures has
+# nothing to unwind
+NO_USER_CODE = {"input", "vy_eval", "eval", "str", "type", "int", "float",
+                "complex", "repr", "vyxalify", "chr", "ord", "isinstance",
+                "bytes", "open", "print"}
+NO_USER_CODE_MODULES = {"sympy", "math", "re", "ast", "json", "string",
+                        "urllib", "num2words", "mpmath", "base64", "random",
+                        "traceback", "sys", "os"}
+
+
+def swallowed_failures(chk, cons, scope_node, file, line_base=None):
+    """A handler that catches every exception and carries on resumes the
+    program after a failure that may have happened in the middle of a lambda
+    body (between its pushes and its pops): it has to cut all four
+    bookkeeping lists back, and cannot without naming them."""
+    n = 0
+    mentioned = {m.attr for m in ast.walk(scope_node)
+                 if isinstance(m, ast.Attribute) and m.attr in CTX_LISTS}
+    for tr in ast.walk(scope_node):
+        if not isinstance(tr, ast.Try):
+            continue
+        for h in tr.handlers:
+            ty = dotted(h.type) if h.type is not None else "BaseException"
+            if ty not in ("Exception", "BaseException"):
+                continue
+            leaves = any(isinstance(m, ast.Raise) or (
+                isinstance(m, ast.Call) and (dotted(m.func) or "") in (
+                    "sys.exit", "exit", "quit", "os._exit"))
+                for st in h.body for m in ast.walk(st))
+            if leaves:
+                continue
+            risky = []
+            for st in tr.body:
+                for c in ast.walk(st):
+                    if not isinstance(c, ast.Call):
+                        continue
+                    d = dotted(c.func) or ast.unparse(c.func)
+                    if d in NO_USER_CODE or d.split(".")[0] in \
+                            NO_USER_CODE_MODULES:
+                        continue
+                    if isinstance(c.func, ast.Attribute) and not isinstance(
+                            c.func.value, ast.Name):
+                        continue  # method of an intermediate (str) result
+                    risky.append(d)
+            n += 1
+            if not risky:
+                chk.ob("C12.swallowed-failure-unwinds", f"{cons}/try", True)
+                continue
+            missing = [l for l in CTX_LISTS if l not in mentioned]
+            if not missing:
+                chk.ob("C12.swallowed-failure-unwinds", f"{cons}/try", True)
+            for lst in missing:
+                chk.ob("C12.swallowed-failure-unwinds",
+                       f"{cons}/except {ty}/{lst}", False,
+                       f"the handler swallows any failure of "
+                       f"{sorted(set(risky))[:4]} and the program carries on, "
+                       f"but nothing here cuts ctx.{lst} back: a failure in "
+                       "the middle of a lambda body leaves the entry that "
+                       "lambda pushed", file,
+                       line_base if line_base is not None else tr.lineno,
+                       witness="the guarded call runs a lambda / element "
+                               "that raises (e.g. random choice from ⟨⟩)")
+    return n
+
+
 def leaf_balance(chk, cons, text, file, line, witness):
     try:
         tree = ast.parse(text)
     except SyntaxError:
         return  # C02 reports it
+    swallowed_failures(chk, cons, tree, file, line)
     ha = HeightAnalysis()
     ha.run_text(tree.body)
     if not ha.issues:
